@@ -5,5 +5,5 @@ WT=/tmp/wt/so_$ID
 git -C /repo worktree remove --force $WT 2>/dev/null; git -C /repo worktree prune; git -C /repo worktree add -q --detach $WT HEAD
 git -C $WT apply /verif/seeded/$ID/patch.diff || { git -C /repo worktree remove --force $WT; exit 2; }
 mkdir -p /tmp/tcheck-try/so_$ID && cp /verif/known_findings.json /tmp/tcheck-try/so_$ID/
-TCHECK_REPO=$WT TCHECK_VERIF=/tmp/tcheck-try/so_$ID /verif/bin/tcheck $PROP --tier ${TIER:-quick} 2>&1 | grep -E "$PAT" | cut -c1-${COLS:-900}
+TCHECK_REPO=$WT TCHECK_VERIF=/tmp/tcheck-try/so_$ID ${TCHECK_BIN:-/verif/bin/tcheck} $PROP --tier ${TIER:-quick} 2>&1 | grep -E "$PAT" | cut -c1-${COLS:-900}
 git -C /repo worktree remove --force $WT; rm -rf /tmp/tcheck-try/so_$ID
